@@ -105,6 +105,9 @@ fn families(tier: Tier) -> &'static Vec<Box<dyn Family>> {
     match tier {
         Tier::Quick => QUICK.get_or_init(|| {
             vec![
+                Box::new(cvx_core::gen_closure::FClosureNest),
+                Box::new(cvx_core::gen_closure::FClosure),
+                Box::new(cvx_core::gen_resolve::FResolve),
                 Box::new(FStmt::new(1)),
                 Box::new(FStmt::new(2)),
                 Box::new(FNest::new()),
@@ -119,6 +122,9 @@ fn families(tier: Tier) -> &'static Vec<Box<dyn Family>> {
         }),
         Tier::Thorough => THOROUGH.get_or_init(|| {
             vec![
+                Box::new(cvx_core::gen_closure::FClosureNest),
+                Box::new(cvx_core::gen_closure::FClosure),
+                Box::new(cvx_core::gen_resolve::FResolve),
                 Box::new(FStmt::new(1)),
                 Box::new(FStmt::new(2)),
                 Box::new(FNest::new()),
@@ -144,7 +150,7 @@ impl Check for C10 {
     fn info(&self, tier: Tier) -> CheckInfo {
         let fams = families(tier);
         CheckInfo {
-            rule: "every program that compiles, from the C01 families (F-stmt, F-nest, F-limits, F-call, F-array, F-expr) and the C04 compile-half families (F-names, F-shape, F-kinds: not restricted to well-scoped input), is decoded front to back by an independent verifier with its own opcode/operand-width table (cross-checked against the crate's table through the hook): last instruction Exit; every jump operand, every label (function, closure, card) an instruction start inside the program; string operands complete length-prefixed UTF-8 in the data section; FunctionPointer handles are functions of the source with the declared arity; Closure handles have labels and no two Closure instructions share one; local indices < 255; the five for-each indices distinct and repeated in the ForEach instruction; RegisterUpvalue only behind Closure/CopyLast; upvalue indices below the number registered by the innermost enclosing closure; global ids dense, ids<->names a bijection that covers the source's globals; trace keys are instruction starts and every instruction that can fail has one; the crate's disassembler walks the same boundaries. 'states' = distinct bytecode images per chunk".into(),
+            rule: "every program that compiles, from the C06/C08 families (F-closure-nest, F-closure, F-resolve), the C01 families (F-stmt, F-nest, F-limits, F-call, F-array, F-expr) and the C04 compile-half families (F-names, F-shape, F-kinds: not restricted to well-scoped input), is decoded front to back by an independent verifier with its own opcode/operand-width table (cross-checked against the crate's table through the hook): last instruction Exit; every jump operand, every label (function, closure, card) an instruction start inside the program; string operands complete length-prefixed UTF-8 in the data section; FunctionPointer handles are functions of the source with the declared arity; Closure handles have labels and no two Closure instructions share one; local indices < 255; the five for-each indices distinct and repeated in the ForEach instruction; RegisterUpvalue only behind Closure/CopyLast; upvalue indices below the number registered by the innermost enclosing closure; global ids dense, ids<->names a bijection that covers the source's globals; trace keys are instruction starts and every instruction that can fail has one; the crate's disassembler walks the same boundaries. 'states' = distinct bytecode images per chunk".into(),
             bound: format!("families {:?}, {} programs", fams.iter().map(|f| format!("{}={}", f.name(), f.len())).collect::<Vec<_>>(), progcheck::total_cases(fams)),
             exhaustive: true,
             assumptions: vec!["programs the compiler rejects are skipped (their rejection is C04/C08's concern)".into()],
